@@ -177,6 +177,28 @@ claim("C18",
       "Trusted: python ast, table model, Lua C-API family table in the checker.",
       "DESIGN.md §4 C18")
 
-PENDING = "check not built yet in this session (fail-closed: not claimed until its rules run clean)"
-for _p in ["C01","C02"]:
-    na(_p, PENDING)
+claim("C02",
+      "emitter-shape and table analysis over ast + table models (this recovery, ordered accumulation of prototype/call "
+      "lists, dereference triples, cxx_to_c/c_to_cxx pairs, qualifier fidelity, C name template, call-target links)",
+      "Decides the structural necessary conditions of C/C++ call equivalence in the C emitter: instance methods "
+      "recover `this` from the handle and call through it, static methods through the class scope, prototype and "
+      "call lists are appended in declaration order only, address/dereference forms are consistent for every "
+      "pointer/reference/value combination, type conversions come in inverse pairs, rendered qualifiers are what was "
+      "parsed, the C name carries every disambiguating part, and every generated variant reaches the C++ function "
+      "through _PTR_C_CXX_index. Run-time equality of values is not executed.",
+      "Trusted: python ast, sa/ table models, dereference truth table in the checker.",
+      "DESIGN.md §4 C02")
+
+claim("C01",
+      "writer/reader and sibling-agreement analysis over ast + statement-table lookup closure (call-target links, "
+      "local-copy completeness, ordered accumulation in the parameter loop, c_*/f_* entry pairing over all reachable "
+      "lookup paths, NUL-termination producer/consumers, per-argument scope use)",
+      "Decides structural necessary conditions of Fortran call equivalence: every generated variant links to the C "
+      "function it must call and the emitter follows the links; bool/local-copy entries convert in and back "
+      "according to intent; dummy names, declarations and actual arguments are accumulated in declaration order; "
+      "for every (f_*, c_*) entry pair reachable through the lookup (with and without F_CFI) the Fortran entry "
+      "passes exactly the arguments the C entry declares and reads only context/capsule it is given; character "
+      "input is trimmed and NUL terminated; per-argument code uses the argument's own blocks. Run-time equality of "
+      "values in compiled code is not executed.",
+      "Trusted: python ast, sa/ table models and lookup-closure model (re-validated against statements.lookup_fc_stmts).",
+      "DESIGN.md §4 C01")
